@@ -50,6 +50,12 @@
     EXTRACT ("C11Euler", e_reorderToZYX_##O, "Euler.reorderToZYXr_" #O,                                                                     \
              { IN (Vec3, a); Euler<T> s (a, Euler<T>::O); Euler<T> e (s, Euler<T>::ZYXr); c.out (Vec3<T> (e.x, e.y, e.z)); c.outI ((long) e.order ()); })
 C11_ORDERS (C11_PER_ORDER)
+// the re-ordering constructor for two further pairs whose SOURCE is neither XYZ nor static resp. whose TARGET is neither ZYXr nor
+// static: witnesses by extraction (not only by reading) that the constructor's body does not depend on either order
+EXTRACT ("C11Euler", e_reorder_YXYr_XZX, "Euler.reorder_YXYr_XZX",
+         { IN (Vec3, a); Euler<T> s (a, Euler<T>::YXYr); Euler<T> e (s, Euler<T>::XZX); c.out (Vec3<T> (e.x, e.y, e.z)); c.outI ((long) e.order ()); })
+EXTRACT ("C11Euler", e_reorder_ZXY_YZXr, "Euler.reorder_ZXY_YZXr",
+         { IN (Vec3, a); Euler<T> s (a, Euler<T>::ZXY); Euler<T> e (s, Euler<T>::YZXr); c.out (Vec3<T> (e.x, e.y, e.z)); c.outI ((long) e.order ()); })
 
 // --- module C11Algo ---------------------------------------------------------------
 EXTRACT ("C11Algo", a_setEulerAngles, "Euler.M44_setEulerAngles", { IN (Vec3, r); Matrix44<T> m; m.setEulerAngles (r); c.out (m); })
